@@ -1,4 +1,5 @@
 import H4.VGroup
+import H4.Gen.Fn.Vgp
 import H4.Driver.Util
 /-! Line protocol of engine `vg` (C08).  Stateful ops are parsed into `H4.VGroup.Op` and run by `H4.VGroup.step`;
     `diskrec` reads the model's copy of the DFTAG_VG element; `packrec`/`unpackrec` are the stateless codec. -/
@@ -69,6 +70,39 @@ def parseVgOp (args : List String) : Option Op :=
 def showVG (g : VG) : String :=
   s!"{showPairs g.members} {showName g.name} {showName g.cls} {g.extag} {g.exref} {g.version} {g.more} {g.flags} {showPairs g.attrs}"
 
+/-! `vpackvg` as TRANSLATED from the current C text of vgp.c (`H4.Gen.Fn.Vgp`, gen/c2lean.py) is run on the arguments of every
+    `packrec` line: when its record, `*size`, the bytes of `buf` behind the record or the version it leaves in `vg->version`
+    differ from the hand-written model (or the translated code reports undefined behaviour / fuel exhaustion) the answer
+    carries a ` GEN=…` suffix, which the comparison with the real library's answer reports as a DIFF.  This validates the
+    translator by differential testing against the compiled C (pattern: `GenChunk` in Driver/Chunk.lean).
+    The translator treats `(i) & 0xff` on a NEGATIVE signed operand as undefined (the low byte of `UINT16ENCODE` applied to
+    the `int16` fields `version` and `more`); the harness does produce such values (0x8000, 0xffff): for them the translated
+    run must report `ub` — and only for them (`H4.Props.C08Fn.Pre`). -/
+namespace GenVg
+open H4.Gen.Fn.Vgp
+def il (l : List Nat) : List Int := l.map Int.ofNat
+def cstr : Option Bytes → List Int
+  | none => []
+  | some b => b.map (fun x => (x.toNat : Int)) ++ [0]
+def toBytes (l : List Int) : Bytes := l.map fun x => UInt8.ofNat x.toNat
+/-- `model` = the record of the hand-written model, `mver` = the version it leaves in memory -/
+def pack (g : VG) (model : Bytes) (mver : Nat) : String :=
+  let sentinel : List Int := List.replicate 4 170
+  let buf : List Int := List.replicate model.length 85 ++ sentinel
+  -- named arguments: the translator orders the parameters by first use in the C text
+  let s := vpackvg (fuel := max g.members.length g.attrs.length + 1) (vg_nvelt := g.members.length)
+    (vg_tag := il (g.members.map (·.1))) (vg_ref := il (g.members.map (·.2)))
+    (vg_vgname_null := g.name.isNone) (vg_vgname := cstr g.name) (vg_vgclass_null := g.cls.isNone) (vg_vgclass := cstr g.cls)
+    (vg_extag := g.extag) (vg_exref := g.exref) (vg_flags := g.flags) (vg_version := toI16 g.version) (vg_nattrs := g.attrs.length)
+    (vg_alist_atag := il (g.attrs.map (·.1))) (vg_alist_aref := il (g.attrs.map (·.2))) (vg_more := toI16 g.more)
+    (buf := buf) (size := [0])
+  let negative := g.more % 65536 ≥ 32768 || mver % 65536 ≥ 32768
+  if negative then (if s.ub then "" else " GEN=no-ub-on-negative-int16")
+  else if s.ub then " GEN=ub" else if s.oof then " GEN=oof"
+  else if s.buf == model.map (fun x => (x.toNat : Int)) ++ sentinel && s.size == [(model.length : Int)] && s.vg_version == toI16 mver then ""
+  else s!" GEN={toHex (toBytes (s.buf.take (s.size.getD 0 0).toNat))}/{s.size}/{s.vg_version}/tail={s.buf.drop model.length}"
+end GenVg
+
 def stepVg (s : File) (args : List String) : File × String :=
   match args with
   | ["diskrec", r] => match r.toNat? with
@@ -81,7 +115,9 @@ def stepVg (s : File) (args : List String) : File × String :=
   | ["packrec", mem, nm, cl, extag, exref, ver, more, flags, attrs] =>
     match parsePairs mem, parseName nm, parseName cl, extag.toNat?, exref.toNat?, ver.toNat?, more.toNat?, flags.toNat?, parsePairs attrs with
     | some members, some name, some cls, some extag, some exref, some version, some more, some flags, some attrs =>
-      (s, toHex (vpackvgF s.fixed3 { members, name, cls, extag, exref, version, more, flags, attrs }))
+      let g : VG := { members, name, cls, extag, exref, version, more, flags, attrs }
+      let model := vpackvgF s.fixed3 g
+      (s, s!"{toHex model} {packVersion g}" ++ GenVg.pack g model (packVersion g))
     | _, _, _, _, _, _, _, _, _ => (s, "bad-op")
   | ["unpackrec", h] => match parseHex h with
     | some b => (s, match vunpackvg b with | some g => showVG g | none => "fail")
